@@ -174,7 +174,7 @@ class Item:
         parts = []
         it = self
         while it is not None and it.kind is not None:
-            parts.append(it.key() if it.kind in ('impl', 'mod', 'trait') or it is not self else it.key())
+            parts.append(it.key())
             it = it.parent
         return ' :: '.join(reversed(parts))
 
@@ -334,6 +334,14 @@ def parse_items(src, toks, lo, hi, parent):
             it.header = norm_header(src, toks, kk + 1, first_brace)
         if kind in ('impl', 'mod', 'trait') and it.body_open is not None:
             it.children = parse_items(src, toks, it.body_open + 1, it.body_close, it)
+        if kind == 'fn' and it.body_open is not None:
+            # items nested in a function body (e.g. a serde Visitor struct + impl inside `fn deserialize`): keep only
+            # real items, statements parse as 'unknown' / 'macro' and are dropped
+            try:
+                nested = parse_items(src, toks, it.body_open + 1, it.body_close, it)
+                it.children = [c for c in nested if c.kind in ('impl', 'struct', 'enum', 'fn', 'trait', 'const', 'type')]
+            except Exception:
+                it.children = []
         items.append(it)
         i = end_tok + 1
     return items
